@@ -33,7 +33,7 @@ MAP_FORMS = ["int64", "uint8", "int32"]                                 # CodonU
 # CodonUniverse!BadProbes (compared with what the specification publishes in S2)
 BAD_PROBES = [["word", list("ANG")], ["word", list("AT")], ["word", list("ATGA")], ["word", []],
               ["word", list("RYN")], ["code", [1, 2]], ["code", [0, 1, 2, 3]], ["code", []],
-              ["map", [[0, 3], [1, 1]]], ["map", [[0, 1, 2, 3]]]]
+              ["map", [[0, 3], [1, 1]]], ["map", [[0, 1, 2, 3]]], ["map", [[2]]], ["code", [2]]]
 OBS_FIELDS = ["aaOf", "codonsOf", "aaCodeOf", "codonsOfCode", "map", "mapEmpty", "dictSyms", "dictCodes", "starts",
               "isStart", "strEntries", "eqRebuilt", "eqChanged", "probes", "codeForms", "aaCodeForms", "mapForms"]
 
@@ -1021,35 +1021,52 @@ def _split_dump(path):
     return texts
 
 
-def _validate(ctx, traces, stage, text_file, selftest=False, batch=2500):
-    """TLC judges recorded events (Trace.tla), in batches.  -> list of (trace index, event index, flags, expected)."""
+def _validate(ctx, traces, stage, text_file, selftest=False, batch=2500, parallel=3):
+    """TLC judges recorded events (Trace.tla), in batches of bounded size (up to `parallel` TLC runs at a time).
+    -> list of (trace index, event index, flags, expected)."""
+    import time
+    from concurrent.futures import ThreadPoolExecutor
+
     from harness.tlabind import tlc as T
     from harness.tlabind.tlaval import parse_value, to_py
 
     d = T.scratch_dir("x01tr")
-    out = []
+    batches = []
     start = 0
-    k = 0
     while start < len(traces):
         stop, nev = start, 0
         while stop < len(traces) and (stop == start or nev + len(traces[stop]) <= batch):
             nev += len(traces[stop])
             stop += 1
-        part = traces[start:stop]
-        tf = os.path.join(d, f"traces_{stage}_{k}.json")
+        tf = os.path.join(d, f"traces_{stage}_{len(batches)}.json")
         with open(tf, "w") as f:
-            json.dump(part, f, separators=(",", ":"))
-        res = ctx.tlc("Trace", "Trace.cfg", stage=stage + ("-selftest" if selftest else ""),
-                      workers=1 if len(part) < 4 else 8, env={"TRACE_FILE": tf, "X01_TEXT": text_file},
-                      count=not selftest, timeout=1500)
-        expect = sum(len(t) + 1 for t in part)
+            json.dump(traces[start:stop], f, separators=(",", ":"))
+        batches.append((start, stop, tf))
+        start = stop
+
+    def one(k):
+        b0, b1, tf = batches[k]
+        time.sleep(0.4 * (k % parallel))        # the scratch directories of run_tlc are named by the millisecond
+        return ctx.tlc("Trace", "Trace.cfg", stage=stage + ("-selftest" if selftest else ""),
+                       workers=1 if b1 - b0 < 4 else 8, env={"TRACE_FILE": tf, "X01_TEXT": text_file},
+                       count=False, timeout=1800)
+
+    if len(batches) > 1:
+        with ThreadPoolExecutor(max_workers=parallel) as ex:
+            results = list(ex.map(one, range(len(batches))))
+    else:
+        results = [one(k) for k in range(len(batches))]
+    out = []
+    for (b0, b1, _tf), res in zip(batches, results):
+        expect = sum(len(t) + 1 for t in traces[b0:b1])
         if res.distinct != expect:
             raise RuntimeError(f"X01 {stage}: trace validation visited {res.distinct} states, expected {expect}")
+        if not selftest:
+            ctx.states += res.distinct
+            ctx.transitions += res.generated
         for x in T.printed_values(res.out, "MISMATCH"):
             v = to_py(parse_value(x))
-            out.append((v[1] - 1 + start, v[2] - 1, v[3], v[4]))
-        start = stop
-        k += 1
+            out.append((v[1] - 1 + b0, v[2] - 1, v[3], v[4]))
     return out
 
 
